@@ -30,7 +30,7 @@ func NewStaticWarning(csvFile *csv.File, kind StaticWarningKind) StaticWarning {
 		Kind:          kind,
 		File:          csvFile.Name(),
 		RowNumber:     csvFile.RowNumber(),
-		RowContent:    csvFile.RowContent(),
+		RowContent:    append([]string{}, csvFile.RowContent()...),
 		HeaderContent: csvFile.HeaderContent(),
 	}
 }
